@@ -87,26 +87,35 @@ func errSwallowRule(c *Ctx, r *Report, rule string, floor int, sel func(fn *ssa.
 			}
 			cons := ordinal(ord, fmt.Sprintf("%s / error %s", fnKey(fn), desc))
 			spec, listed := table[cons]
+			key := cons
+			if !listed {
+				// an entry keyed by the error's origin alone applies wherever that error is tested (robust against code moving between functions)
+				if sp, ok := table["error "+desc]; ok {
+					spec, listed, key = sp, true, "error "+desc
+				}
+			}
 			// start at the test itself with its nil edge barred, so that the search knows the error is non-nil (it may be merged into a result that is tested again)
 			_ = succ
 			nilEdge := Guard{Name: "this error == nil", Truthy: false, Match: func(b ssa.Value) bool { return b == base }}
 			p := reachFromBlockStart(fn, ifi.Block(), isNilErrReturn, append(append([]Guard{}, spec.Guards...), nilEdge), nil)
 			if p == nil {
 				if listed && len(spec.Guards) == 0 {
-					used[cons] = true
+					used[key] = true
 				}
 				r.OK(rule, cons, "a failure here never ends in a success return"+map[bool]string{true: " other than across the listed condition (" + spec.Reason + ")", false: ""}[listed && len(spec.Guards) > 0])
 				if listed {
-					used[cons] = true
+					used[key] = true
 				}
 				continue
 			}
 			if listed && len(spec.Guards) == 0 {
-				used[cons] = true
+				used[key] = true
 				r.Trivial(rule, cons, "tolerated by design: "+spec.Reason)
 				continue
 			}
-			used[cons] = listed
+			if listed {
+				used[key] = true
+			}
 			why := "the error is tested and the function can still return success"
 			if listed {
 				why = "the function returns success after this error on a path that avoids the only tolerated condition (" + spec.Reason + ")"
